@@ -45,4 +45,14 @@ PROPS = {
                          "ASCII model of strings.ToLower/TrimSpace (harness keeps non-ASCII runes caseless and non-blank)"],
         "assumptions": ["joined errors and multi-line messages are covered by monitors on the real code only (not in the Lean model)"],
     },
+    "C14": {
+        "areas": ["Retry"],
+        "harness": "retry",
+        "verdict_findings": {"C14_verdict_retry_after": "retry-after-seconds-overflow"},
+        "trusted_base": ["Model.Retry: retry-go v4.6.1 Do (attempts>=1 branch), retryablehttp LinearJitterBackoff/DefaultBackoff, float64 scaling by powers of two — hand-modelled third-party code, validated differentially",
+                         "gofacts' recognition of RetryIf's option list, the three Apply bodies, BackOffPolicyFactory and findRetryAfter (normalised-source match, fails closed)",
+                         "out-of-range float->int64 conversion = arbitrary value x (theorems quantify over x; harness observes amd64's MinInt64)"],
+        "assumptions": ["attempts >= 1 (RetryMax = 0 means 'retry for ever' in retry-go and is outside the property's quantifier)",
+                        "linear policy: jitter is an unknown j in [0, max-min]; only bounds are compared"],
+    },
 }
